@@ -126,6 +126,52 @@ int main(void)
         }
         else if (!strcmp(cmd, "kchk")) { sscanf(line, "%*s %d", &x); int r = checkSequenceNumber(con, x); kdump(r); }
         else if (!strcmp(cmd, "kfull")) { printf("kf %d\n", isSentBufferFull(con)); }
+        else if (!strcmp(cmd, "ksweep")) {
+            /* native exhaustive sweep for one k: every rotation of the ring x every occupancy x window
+               alignments (incl. straddling 32767->0) x all 32768 N(R); oracle = the modular window rule,
+               written from the property text:  accept iff (n - (vs - c)) mod 2^15 <= c, releasing that many */
+            int k = 12, stride = 1; sscanf(line, "%*s k=%d stride=%d", &k, &stride);
+            fresh(k);
+            long long cases = 0, bad = 0;
+            for (int rot = 0; rot < k; rot++)
+            for (int c = 0; c <= k; c++) {
+                int vss[12]; int nv = 0;
+                vss[nv++] = c % 32768; vss[nv++] = 0; vss[nv++] = 1; vss[nv++] = 16384; vss[nv++] = 32767; vss[nv++] = 32766;
+                vss[nv++] = (c / 2) % 32768; vss[nv++] = (c > 0 ? c - 1 : 0); vss[nv++] = (32768 + c / 2 - 1) % 32768; vss[nv++] = 12345;
+                for (int vi = 0; vi < nv; vi++) {
+                    int vs = vss[vi];
+                    for (int n = 0; n < 32768; n += stride) {
+                        con->sendCount = vs;
+                        if (c == 0) { con->oldestSentASDU = -1; con->newestSentASDU = -1; }
+                        else {
+                            con->oldestSentASDU = rot; con->newestSentASDU = (rot + c - 1) % k;
+                            for (int j = 0; j < c; j++) {
+                                int idx = (rot + j) % k;
+                                con->sentASDUs[idx].seqNo = ((vs - c + 1 + j) % 32768 + 32768) % 32768;
+                                con->sentASDUs[idx].sentTime = 0;
+#ifdef ROLE_SERVER
+                                con->sentASDUs[idx].queueEntry = NULL; con->sentASDUs[idx].entryId = 0;
+#endif
+                            }
+                        }
+                        int full = isSentBufferFull(con);
+                        int r = checkSequenceNumber(con, n);
+                        int d = (((n - (vs - c)) % 32768) + 32768) % 32768;
+                        int exp = d <= c;
+                        int ok = (r == exp) && (full == (c == k));
+                        if (ok && exp) {
+                            int c2 = c - d;
+                            if (c2 == 0) ok = (con->oldestSentASDU == -1);
+                            else ok = (con->oldestSentASDU == (rot + d) % k) && (con->newestSentASDU == (rot + c - 1) % k);
+                        }
+                        else if (ok && c > 0) ok = (con->oldestSentASDU == rot) && (con->newestSentASDU == (rot + c - 1) % k);
+                        cases++;
+                        if (!ok) { if (bad < 5) printf("kbad k=%d rot=%d c=%d vs=%d n=%d ret=%d old=%d new=%d\n", k, rot, c, vs, n, r, con->oldestSentASDU, con->newestSentASDU); bad++; }
+                    }
+                }
+            }
+            printf("kdone k=%d cases=%lld bad=%lld\n", k, cases, bad);
+        }
 #ifdef ROLE_SERVER
         else if (!strcmp(cmd, "mq")) {
             char sub[32]; sscanf(line, "%*s %31s %d %d", sub, &x, &y);
